@@ -409,11 +409,16 @@ func TestC12(t *testing.T) {
 				c.Patches = syn.Patches
 				// target: a PC on the path (first arrival cuts the run), the initial PC, or an address never reached
 				ti := 0
-				switch d.Intn("target-kind", 6) {
+				otherBank := -1
+				switch d.Intn("target-kind", 7) {
 				case 0:
 					c.Target = path[0]
 				case 1:
 					c.Target = 0x123456
+					ti = -1
+				case 2: // same offset as a PC on the path, but another bank: the budget is solved to end the run exactly there
+					otherBank = 1 + d.Intn("other-step", len(path)-1)
+					c.Target = path[otherBank] ^ uint32(1+d.Intn("bank-bit", 3))<<16
 					ti = -1
 				default:
 					ti = 1 + d.Intn("target-step", len(path)-1)
@@ -439,6 +444,9 @@ func TestC12(t *testing.T) {
 					c.Max = uint64(d.Intn("max", int(cyc)+2))
 				default:
 					c.Max = cyc + 50
+				}
+				if otherBank > 0 && d.Intn("exact-other", 4) != 0 {
+					c.Max = sums[otherBank-1] // the run ends by budget with PC at the target's offset in the wrong bank
 				}
 				if c.Max > 4000 {
 					c.Max = 4000
@@ -474,6 +482,9 @@ func TestC12(t *testing.T) {
 				}
 				if c.Reset {
 					ev.Class("D/reset")
+				}
+				if otherBank > 0 {
+					ev.Class("B/target-same-offset-other-bank")
 				}
 			})
 			ev.Extra["runs_cut_by_target_or_budget"] = cut
